@@ -460,6 +460,53 @@ func runC14(c *core.Ctx) {
 			nInvalid++
 		}
 	}
+	// Go slices with a concrete element type ([]string, []int, []float64, []bool, [][]string, ...) in place of
+	// []interface{} with the same elements, at the top and inside maps and outer lists: the verdict is the same
+	var nTyped int64
+	for i, k := range cases {
+		if k.label != "matrix" && i%7 != 0 {
+			continue
+		}
+		v, _ := DecodeGo(k.vars)
+		vars, _ := v.(map[string]interface{})
+		tv, changed := typedSlices(v)
+		tvars, _ := tv.(map[string]interface{})
+		if !changed || vars == nil || tvars == nil {
+			continue
+		}
+		s2 := s2A
+		if sdlOf(i) == sdlB {
+			s2 = s2B
+		}
+		if sdlOf(i) == matrixSchema {
+			s2 = s2M
+		}
+		doc, perr := parser.ParseQuery(&ast.Source{Input: k.query})
+		if perr != nil || len(validator.Validate(s2, doc)) > 0 || len(doc.Operations) == 0 {
+			continue
+		}
+		nTyped++
+		run := func(m map[string]interface{}) (res string) {
+			defer func() {
+				if r := recover(); r != nil {
+					res = "panic"
+				}
+			}()
+			out, err := validator.VariableValues(s2, doc.Operations[0], m)
+			if err != nil {
+				return "err"
+			}
+			return "ok " + DumpGo(out)
+		}
+		// (when both succeed the values may be represented differently: a typed slice cannot hold the
+		// one-element lists that single-value coercion makes of its items, recorded as F-C2b)
+		a, b := run(vars), run(tvars)
+		if strings.HasPrefix(a, "ok") != strings.HasPrefix(b, "ok") || a == "panic" || b == "panic" {
+			c.ReportOracle("typed-slice-treated-differently", map[string]interface{}{"query": k.query, "variables": k.vars, "with_interface_slices": a[:min(300, len(a))], "with_typed_slices": b[:min(300, len(b))],
+				"note": "the same elements in a slice of a concrete element type ([]string, []int, ...)"})
+		}
+	}
+	c.Count("typed_slice_variants", nTyped)
 	for l, n := range labels {
 		c.Count("label_"+strings.ReplaceAll(l, " ", "_"), n)
 	}
@@ -526,6 +573,21 @@ func valueMatrix() [][2]string {
 			}
 		}
 	}
+	// two different leaves of one Go type in one list (a conforming first item must not vouch for the second)
+	for _, t := range []string{"Int", "Float", "String", "Boolean", "ID", "Color", "Any"} {
+		for _, l1 := range leaves {
+			for _, l2 := range leaves {
+				if l1 == nil || l2 == nil || reflect.TypeOf(l1) != reflect.TypeOf(l2) || reflect.TypeOf(l1).Kind() == reflect.Slice || reflect.TypeOf(l1).Kind() == reflect.Map {
+					continue
+				}
+				one("["+t+"!]", []interface{}{l1, l2})
+				one("[["+t+"]!]", []interface{}{[]interface{}{l1, l2}, []interface{}{l2}})
+				if t == "Int" {
+					one("M", map[string]interface{}{"l": []interface{}{l1, l2}})
+				}
+			}
+		}
+	}
 	defaults := []string{"[]", "[[]]", "[[], []]", "{}", "null", "1", `"s"`, "[1]", "[null]", "[[1], []]", "{l: []}", "{ll: [[]]}", "{ll: []}", "{m: {l: []}}", "{ms: []}", "{ms: [{l: []}]}",
 		"{ri: null}", "{a: []}", "{a: {}}", "{a: [[], {}]}", "RED", "true", "1.5", "{i: 1, f: 1, s: \"x\", b: true, id: 1, c: RED}"}
 	types := []string{"Int", "[Int]", "[Int!]", "[[Int]]", "[[Int]!]!", "M", "[M]", "[M!]!", "Any", "[Any]", "Color", "[Color]", "String", "[String]", "Float", "Boolean", "ID", "One"}
@@ -538,4 +600,53 @@ func valueMatrix() [][2]string {
 		}
 	}
 	return out
+}
+
+// typedSlices: every []interface{} whose elements all have one of the Go types string, int, float64, bool
+// (or are themselves slices that become typed slices of one type) replaced by a slice of that type.
+func typedSlices(v interface{}) (interface{}, bool) {
+	switch x := v.(type) {
+	case map[string]interface{}:
+		out := map[string]interface{}{}
+		ch := false
+		for k, e := range x {
+			ne, c := typedSlices(e)
+			out[k] = ne
+			ch = ch || c
+		}
+		return out, ch
+	case []interface{}:
+		if len(x) == 0 {
+			return x, false
+		}
+		items := make([]interface{}, len(x))
+		ch := false
+		for i, e := range x {
+			ne, c := typedSlices(e)
+			items[i] = ne
+			ch = ch || c
+		}
+		t := reflect.TypeOf(items[0])
+		if t == nil {
+			return items, ch
+		}
+		for _, e := range items[1:] {
+			if reflect.TypeOf(e) != t {
+				return items, ch
+			}
+		}
+		switch t.Kind() {
+		case reflect.String, reflect.Int, reflect.Float64, reflect.Bool, reflect.Slice:
+			if t == reflect.TypeOf(json.Number("")) || t == reflect.TypeOf([]interface{}{}) {
+				return items, ch
+			}
+			sl := reflect.MakeSlice(reflect.SliceOf(t), len(items), len(items))
+			for i, e := range items {
+				sl.Index(i).Set(reflect.ValueOf(e))
+			}
+			return sl.Interface(), true
+		}
+		return items, ch
+	}
+	return v, false
 }
